@@ -3,7 +3,7 @@ working tree, running TLC, parsing its output, writing evidence, verdict bookkee
 import json, os, re, shutil, subprocess, sys, tempfile, time, hashlib
 
 VERIF = os.path.dirname(os.path.dirname(os.path.abspath(__file__)))
-REPO = "/repo"
+REPO = os.environ.get("VERIF_REPO", "/repo")   # the tree under verification (a scratch worktree when seeded changes are tried)
 SPEC = os.path.join(VERIF, "spec")
 HARNESS = os.path.join(VERIF, "harness")
 OUTDIR = os.path.join(VERIF, "out")          # replay files and logs of the last runs (git-ignored)
@@ -44,7 +44,20 @@ class Ctx:
         print("[%s %s %6.1fs]" % (self.prop, self.tier, time.time() - self.t0), *a, flush=True)
 
     # ---------------------------------------------------------------- building
-    def build_go(self, pkg, name, tags="verif", race=False, cwd=HARNESS):
+    def harness_dir(self):
+        """The harness module; when another tree than /repo is verified, a copy whose go.mod points there."""
+        if REPO == "/repo":
+            return HARNESS
+        d = os.path.join(self.scratch, "harness")
+        if not os.path.exists(d):
+            shutil.copytree(HARNESS, d)
+            gm = os.path.join(d, "go.mod")
+            s = open(gm).read().replace("=> /repo", "=> " + REPO)
+            open(gm, "w").write(s)
+        return d
+
+    def build_go(self, pkg, name, tags="verif", race=False, cwd=None):
+        cwd = cwd or self.harness_dir()
         out = os.path.join(self.scratch, name)
         cmd = ["go", "build", "-tags", tags, "-o", out]
         if race:
@@ -142,8 +155,10 @@ class Ctx:
         ev = dict(property_id=self.prop, tier=self.tier, seed=self.seed, level=level, coverage=cov,
                   assumptions=self.assumptions, wall_s=round(time.time() - self.t0, 1), violations=len(mine),
                   notes=self.notes, inconclusive=self.inconclusive)
-        os.makedirs(os.path.join(VERIF, "evidence"), exist_ok=True)
-        with open(os.path.join(VERIF, "evidence", self.prop + ".json"), "w") as f:
+        # evidence describes runs against /repo only; runs against a scratch tree (seeded changes) go to out/
+        evdir = os.path.join(VERIF, "evidence") if REPO == "/repo" else os.path.join(OUTDIR, "evidence-" + os.path.basename(REPO))
+        os.makedirs(evdir, exist_ok=True)
+        with open(os.path.join(evdir, self.prop + ".json"), "w") as f:
             json.dump(ev, f, indent=1, default=str)
         for k in self.known:
             print(k)
